@@ -433,6 +433,10 @@ func (s *indexKVStore) FindValuesByLike(bucketID uint32, like string, ids []uint
 		return s.findValuesByLike(bucketID, nil, suffix, bytes.HasSuffix, ids)
 	// starts with and ends with *
 	case hashPrefix && hasSuffix:
+		if len(likeSlice) == 1 {
+			// only "*", matches all values
+			return s.findValuesByLike(bucketID, nil, nil, bytes.Contains, ids)
+		}
 		middle := likeSlice[1 : len(likeSlice)-1]
 		return s.findValuesByLike(bucketID, nil, middle, bytes.Contains, ids)
 	default:
